@@ -360,6 +360,47 @@ def queue_sites(fb, owner_re):
                 else:
                     break
                 hops += 1
+            if field is None and fn.lambda_ and "outer_fid" in fn.d:
+                # a queue reached through the parameters of a lambda that is handed to a sweep over a
+                # thread-local holder field (`_queues.for_each([&](Q* iter, Q* end) {...})`)
+                root = th
+                hops2 = 0
+                while isinstance(root, dict) and root.get("k") != "p" and hops2 < 8:
+                    if root.get("k") == "l":
+                        init = None
+                        for _, e2 in fn.all_events():
+                            if e2["e"] == "decl" and e2.get("var") == root.get("id"):
+                                init = e2.get("init")
+                        root = strip_cast(init)
+                    elif root.get("k") == "e":
+                        ce = fn.events.get(root["id"])
+                        if ce and ce.get("e") == "asg":
+                            root = strip_cast(ce.get("lhs"))
+                        else:
+                            root = strip_cast(ce.get("this") if ce and "this" in ce else (ce["args"][0] if ce and ce.get("args") else None))
+                    elif root.get("k") in ("u", "cast", "f", "idx"):
+                        root = strip_cast(root.get("x") or root.get("b"))
+                    else:
+                        break
+                    hops2 += 1
+                outer = fn.tu.fns.get(fn.d["outer_fid"])
+                if isinstance(root, dict) and root.get("k") == "p" and outer is not None:
+                    for _, oe in outer.all_events():
+                        if oe["e"] != "call":
+                            continue
+                        passes = False
+                        for a in oe.get("args", []):
+                            a = strip_cast(a)
+                            if isinstance(a, dict) and a.get("k") == "lam" and a.get("fid") == fn.id:
+                                passes = True
+                            if isinstance(a, dict) and a.get("k") == "e":
+                                ce2 = outer.events.get(a["id"])
+                                if ce2 and any(isinstance(strip_cast(x), dict) and strip_cast(x).get("k") == "lam" and
+                                               strip_cast(x).get("fid") == fn.id for x in ce2.get("args", [])):
+                                    passes = True
+                        oth = strip_cast(oe.get("this"))
+                        if passes and isinstance(oth, dict) and oth.get("k") == "f" and orx.search(oth.get("rec", "") or ""):
+                            field = "%s::%s" % ((oth.get("rec") or "").replace("babylon::", ""), oth.get("n"))
             if field is None:
                 continue
             targs = [t.strip() for t in (ev.get("targs", "") or "").split(",")]
